@@ -457,7 +457,7 @@ class C12(L1Prop):
                         ops += [f"dump {c}", line, f"dump {c}"]
                     elif line.startswith("as "):
                         c = line.split()[1]
-                        ops += [line, f"dump {c}"]
+                        ops += [f"dump {c}", line, f"dump {c}"]
                     else:
                         ops.append(line)
             out.append(Case(f"c12-hist-{j}", ops, {"cfg": [d, v]}))
@@ -501,10 +501,22 @@ class C12(L1Prop):
                 count[op.c] += 1
             if op.kind == "setcounter" and resp_kind(ri) == "unit" and op.c in count:
                 count[op.c] = op.arg
-            if op.kind == "as" and i + 1 < len(trace) and trace[i + 1][0].startswith(f"dump {op.c} "):
-                after = Dump(trace[i + 1][1])
-                if after.ok and after.snap is not None and after.snap[0] == op.v and after.data == op.data and abs(after.snap[1] - op.now) <= 3:
-                    count[op.c] = 0       # this upload is the stored snapshot
+            if op.kind == "as":
+                bracketed = 0 < i and i + 1 < len(trace) and trace[i + 1][0].startswith(f"dump {op.c} ") and trace[i - 1][0].startswith(f"dump {op.c} ")
+                if bracketed:
+                    before, after = Dump(trace[i - 1][1]), Dump(trace[i + 1][1])
+                    if before.ok and after.ok and after.snap is not None and (before.snap is None or before.snap[:2] != after.snap[:2] or before.data != after.data):
+                        count[op.c] = 0       # the stored snapshot was replaced by this upload
+                else:
+                    # the grid cases: an upload for the latest version right after it was added is always
+                    # accepted unless it is the current snapshot version already
+                    after = Dump(trace[i + 1][1]) if i + 1 < len(trace) and trace[i + 1][0].startswith(f"dump {op.c} ") else None
+                    if after is not None and after.ok and after.snap is not None and after.snap[0] == op.v and after.snap[2] == 0 and after.data == op.data:
+                        count[op.c] = 0
+                    else:
+                        count.pop(op.c, None)
+            if op.kind in ("backdate",) and False:
+                pass
             if op.kind == "dump" and op.c in count:
                 dd = Dump(ri)
                 if dd.ok and dd.snap is not None and dd.snap[2] != count[op.c]:
